@@ -679,6 +679,12 @@ func (g *G) block(kind string) string {
 		return g.asideNav()
 	case "inlinetext":
 		return g.inline(g.plen()) + "\n"
+	case "strayli":
+		return "<div><li>" + g.inline(g.plen()) + "</li><li>" + g.inline(g.plen()) + "</li></div>\n"
+	case "ulinline":
+		return "<ul><b>" + g.words(g.intn(1, 20, "uiw")) + "</b><li>" + g.inline(g.plen()) + "</li></ul>\n"
+	case "inlineimg":
+		return "<p>" + g.inline(g.plen()) + " " + strings.TrimSpace(g.img()) + " " + g.inline(g.plen()) + "</p>\n"
 	}
 	panic("unknown block kind " + kind)
 }
